@@ -26,6 +26,10 @@ func main() {
 		os.Exit(runTransformReplay(os.Args[2:]))
 	case "deferred-replay":
 		os.Exit(runDeferredReplay(os.Args[2:]))
+	case "crash-enum":
+		os.Exit(runCrashEnum(os.Args[2:]))
+	case "fault-enum":
+		os.Exit(runFaultEnum(os.Args[2:]))
 	case "hashfuzz":
 		os.Exit(runHashFuzz(os.Args[2:]))
 	case "reader-replay":
